@@ -201,6 +201,16 @@ func lanesOf(v ssa.Value, depth int) []lane {
 				}
 				return []lane{{Kind: laneByte, Pos: posExpr{}, Buf: strip(ia.X)}}
 			}
+			// a field of a struct value built elsewhere in this analysis' view — a local that received the
+			// result of a decoding helper (`header, err := readFrameHeader(conn)` … header.payloadSize):
+			// the value that field was given
+			if fa, ok := x.X.(*ssa.FieldAddr); ok {
+				if al, isA := fa.X.(*ssa.Alloc); isA {
+					if fv := structFieldValue(al, fieldOfAddr(fa), 0); fv != nil && fv != v && widthLanes(fv.Type()) == n {
+						return lanesOf(fv, depth+1)
+					}
+				}
+			}
 			return source(v)
 		}
 		return unknown()
@@ -413,6 +423,11 @@ func bufferRoot(v ssa.Value) ssa.Value {
 				v = strip(c.Call.Args[0])
 				continue
 			}
+			// … also when a transparent helper does the appending (`buf = appendPreamble(buf, …)`)
+			if r := resultOf(c); r != ssa.Value(c) {
+				v = strip(r)
+				continue
+			}
 		}
 		// … also when it grows in a loop
 		if ph, ok := v.(*ssa.Phi); ok {
@@ -430,6 +445,13 @@ func bufferRoot(v ssa.Value) ssa.Value {
 // append writes), or -1.
 func appendOffset(v ssa.Value) int64 {
 	v = strip(v)
+	if c, ok := v.(*ssa.Call); ok {
+		if _, isB := c.Call.Value.(*ssa.Builtin); !isB {
+			if r := resultOf(c); r != ssa.Value(c) {
+				v = strip(r) // what a transparent helper returns
+			}
+		}
+	}
 	if ms, ok := v.(*ssa.MakeSlice); ok {
 		if k, ok := constInt(ms.Len); ok {
 			return k
